@@ -17,12 +17,18 @@ def build_cases(ctx, n):
         c = H.make_case(rng, generic=(i % 4 != 0))
         for lg in (True, False):
             try:
-                obs = H.observe(c, lg)
+                obs = H.observe(c, lg, rng)
             except Exception as ex:
                 ctx.failure("nonshear-raises-%s" % ("long" if lg else "off"),
                             "contribution class raised %s: %s" % (type(ex).__name__, ex),
                             input=dict(nq=c["nq"], na=c["na"], temps=c["temps"]))
                 continue
+            for a in obs.get("alias", []):
+                ctx.failure("read-order-%s" % a["observable"],
+                            "%s changes (by up to %.3g) after other observables of the same contribution object were "
+                            "read in the order %s" % (a["observable"], a["max_change"], a["read_order"]),
+                            input=dict(cls="longitudinal" if lg else "off-diagonal", temps=c["temps"], vols=c["vols"]),
+                            observed=a)
             nontriv = c["nq"] >= 2 and len(set(c["weights"])) > 1
             ctx.case(dict(lg=lg, freq=c["freq"], gam=c["gam"], vdr=c["vdr"], w=c["weights"], t=c["temps"],
                           v=c["vols"], ei=c["ei"], ej=c["ej"]), nontrivial=nontriv)
